@@ -666,3 +666,131 @@ for _pass, _mk, _what, _ens in (
            'shape_case': True, 'serves': ['C12', 'C13']}
     REG.add('sqlparse.engine.grouping.' + _pass, 'shape: ' + _what, type('joiner_shape_' + _pass, (), _ns))
     JOINER_SHAPE_CASES.append(('sqlparse.engine.grouping.' + _pass, 'shape: ' + _what))
+
+
+# --------------------------------------------------------------------------------- _group_matching on explicit shapes (C09)
+
+_inline_on_shapes('sqlparse.engine.grouping._group_matching')
+
+
+def _gm_shape(kind):
+    def mk(ex, st):
+        from contracts.sql import _mk_leaf, _mk_node, _mk_argument
+        T, sql = ex.W.T, ex.W.sql
+        P = lambda v, nm: _mk_leaf(ex, st, None, nm, (T.Punctuation,), value=v)   # noqa: E731
+        K = lambda w, nm: _mk_leaf(ex, st, None, nm, (T.Keyword,), normalized=w)   # noqa: E731
+        A = lambda nm: _mk_argument(ex, st, nm)   # noqa: E731
+        gh = {}
+        if kind == 'nested parentheses':
+            x, a, b, c, y = A('x'), A('a'), A('b'), A('c'), A('y')
+            o1, o2, c2, c1 = P('(', 'o1'), P('(', 'o2'), P(')', 'c2'), P(')', 'c1')
+            gh = dict(X=x, A=a, B=b, C=c, Y=y, O1=o1, O2=o2, C2=c2, C1=c1)
+            items = [x, o1, a, o2, b, c2, c, c1, y]
+        elif kind == 'unmatched':
+            a, b = A('a'), A('b')
+            c0, o1 = P(')', 'c0'), P('(', 'o1')
+            gh = dict(A=a, B=b, C0=c0, O1=o1)
+            items = [c0, a, o1, b]
+        elif kind == 'case':
+            cs, wh, th, en = K('CASE', 'kw_case'), K('WHEN', 'kw_when'), K('THEN', 'kw_then'), K('END', 'kw_end')
+            a, b, y = A('a'), A('b'), A('y')
+            gh = dict(CASE=cs, END=en, A=a, B=b, Y=y)
+            items = [cs, wh, a, th, b, en, y]
+        else:   # case inside a parenthesis group
+            cs, en = K('CASE', 'kw_case'), K('END', 'kw_end')
+            a = A('a')
+            o1, c1 = P('(', 'o1'), P(')', 'c1')
+            gh = dict(CASE=cs, END=en, A=a, O1=o1, C1=c1)
+            items = [lambda g: _mk_node(ex, st, sql.Parenthesis, 'paren', [o1, cs, a, en, c1], g)]
+        st.ghost.update(gh)
+        return _mk_node(ex, st, sql.Statement, 'tlist', items)
+    return mk
+
+
+MATCHER_SHAPE_CASES = []
+for _kind, _cls, _ens in (
+    ('nested parentheses', 'Parenthesis',
+     ['len(tlist.tokens) == 3', 'tlist.tokens[0] is X', 'tlist.tokens[2] is Y', 'isinstance(tlist.tokens[1], sql.Parenthesis)',
+      'len(tlist.tokens[1].tokens) == 5', 'tlist.tokens[1].tokens[0] is O1', 'tlist.tokens[1].tokens[4] is C1',
+      'tlist.tokens[1].tokens[1] is A', 'tlist.tokens[1].tokens[3] is C',
+      'isinstance(tlist.tokens[1].tokens[2], sql.Parenthesis)', 'len(tlist.tokens[1].tokens[2].tokens) == 3',
+      'tlist.tokens[1].tokens[2].tokens[0] is O2', 'tlist.tokens[1].tokens[2].tokens[1] is B',
+      'tlist.tokens[1].tokens[2].tokens[2] is C2']),
+    ('unmatched', 'Parenthesis',
+     ['len(tlist.tokens) == 4', 'tlist.tokens[0] is C0', 'tlist.tokens[1] is A', 'tlist.tokens[2] is O1', 'tlist.tokens[3] is B']),
+    ('case', 'Case',
+     ['len(tlist.tokens) == 2', 'isinstance(tlist.tokens[0], sql.Case)', 'len(tlist.tokens[0].tokens) == 6',
+      'tlist.tokens[0].tokens[0] is CASE', 'tlist.tokens[0].tokens[5] is END', 'tlist.tokens[1] is Y']),
+    ('case inside a parenthesis group', 'Case',
+     ['len(tlist.tokens) == 1', 'len(tlist.tokens[0].tokens) == 3', 'tlist.tokens[0].tokens[0] is O1',
+      'tlist.tokens[0].tokens[2] is C1', 'isinstance(tlist.tokens[0].tokens[1], sql.Case)',
+      'tlist.tokens[0].tokens[1].tokens[0] is CASE', 'tlist.tokens[0].tokens[1].tokens[2] is END'])):
+    _ns = {'__doc__': 'C09 "exactly the pairs that a textbook stack matcher finds: innermost first, unmatched openers or closers '
+                      'left ungrouped, later kinds matched inside groups of earlier kinds; each node starts with its opening and '
+                      'ends with its closing token": _group_matching(%s) on an explicit token list, case: %s' % (_cls, _kind),
+           'exec_class': HeapExec, 'params': {'tlist': _gm_shape(_kind), 'cls': make_cls_const(_cls)},
+           'int_lists': ('opens',), 'requires': [], 'ensures': _ens, 'raises': [], 'shape_case': True, 'serves': ['C09']}
+    REG.add('sqlparse.engine.grouping._group_matching', 'shape: ' + _kind, type('group_matching_shape', (), _ns))
+    MATCHER_SHAPE_CASES.append(('sqlparse.engine.grouping._group_matching', 'shape: ' + _kind))
+
+
+# --------------------------------------------------------------------------------- more pass shapes (C13)
+
+def _shape_function(ex, st):
+    from contracts.sql import _mk_leaf, _mk_node, _mk_argument
+    T, sql = ex.W.T, ex.W.sql
+    fn = _mk_leaf(ex, st, None, 'fname', (T.Name,), name_leaf=True)
+    # (the has_create / has_table / has_as scan compares upper-cased values: the function is not called CREATE / TABLE)
+    v = st.objs[fn.oid]['value'].z
+    st.assume(z3.And(ex.W.upper(v) != z3.StringVal('CREATE'), ex.W.upper(v) != z3.StringVal('TABLE')))
+    lp = _mk_leaf(ex, st, None, 'lp', (T.Punctuation,), value='(')
+    rp = _mk_leaf(ex, st, None, 'rp', (T.Punctuation,), value=')')
+    arg = _mk_argument(ex, st, 'arg')
+    par = lambda g: _mk_node(ex, st, sql.Parenthesis, 'paren', [lp, arg, rp], g)   # noqa: E731
+    node = _stmt_around(ex, st, [fn, par], {'F': fn, 'ARG': arg})
+    # the statement is not a CREATE TABLE: no token is spelled CREATE or TABLE
+    for o in list(st.objs.values()):
+        val = o.get('value')
+        if isinstance(val, SStr) and not z3.is_string_value(val.z):
+            st.assume(z3.And(ex.W.upper(val.z) != z3.StringVal('CREATE'), ex.W.upper(val.z) != z3.StringVal('TABLE')))
+    return node
+
+
+def _shape_comparison(ex, st):
+    from contracts.sql import _mk_leaf, _ws1
+    T = ex.W.T
+    a = _name(ex, st, 'lhs')
+    op = _mk_leaf(ex, st, None, 'op', (T.Operator.Comparison,))
+    num = _mk_leaf(ex, st, None, 'rhs', (T.Number.Integer, T.Number.Float, T.String.Single))
+    w1, w2 = _ws1(ex, st, 'ws1'), _ws1(ex, st, 'ws2')
+    return _stmt_around(ex, st, [_ident(ex, st, 'lident', [a]), w1, op, w2, num], {'L': a, 'OP': op, 'R': num})
+
+
+def _shape_order(ex, st):
+    from contracts.sql import _mk_leaf, _ws1
+    T = ex.W.T
+    a = _name(ex, st, 'col')
+    o = _mk_leaf(ex, st, None, 'ord', (T.Keyword.Order,), normalized='DESC')
+    w1 = _ws1(ex, st, 'ws1')
+    return _stmt_around(ex, st, [_ident(ex, st, 'cident', [a]), w1, o], {'COL': a, 'ORD': o, 'W1': w1})
+
+
+MORE_PASS_SHAPE_CASES = []
+for _pass, _mk, _what, _ens in (
+    ('group_functions', _shape_function, 'f ( arg )',
+     ['len(tlist.tokens) == 7', 'isinstance(tlist.tokens[2], sql.Function)', 'len(tlist.tokens[2].tokens) == 2',
+      'tlist.tokens[2].tokens[0] is F', 'isinstance(tlist.tokens[2].tokens[1], sql.Parenthesis)',
+      'tlist.tokens[2].tokens[1].tokens[1] is ARG', 'tlist.tokens[4] is FROM']),
+    ('group_comparison', _shape_comparison, 'a <op> literal',
+     ['len(tlist.tokens) == 7', 'isinstance(tlist.tokens[2], sql.Comparison)', 'len(tlist.tokens[2].tokens) == 5',
+      'tlist.tokens[2].tokens[0].tokens[0] is L', 'tlist.tokens[2].tokens[2] is OP', 'tlist.tokens[2].tokens[4] is R',
+      'tlist.tokens[4] is FROM']),
+    ('group_order', _shape_order, 'col DESC',
+     ['len(tlist.tokens) == 7', 'isinstance(tlist.tokens[2], sql.Identifier)', 'len(tlist.tokens[2].tokens) == 3',
+      'tlist.tokens[2].tokens[0].tokens[0] is COL', 'tlist.tokens[2].tokens[2] is ORD', 'tlist.tokens[4] is FROM']),
+):
+    _ns = {'__doc__': 'the pass %s on  SELECT %s FROM t : what it groups is exactly the written construct' % (_pass, _what),
+           'exec_class': HeapExec, 'params': {'tlist': _mk}, 'requires': [], 'ensures': _ens, 'raises': [],
+           'shape_case': True, 'serves': ['C13']}
+    REG.add('sqlparse.engine.grouping.' + _pass, 'shape: ' + _what, type('pass_shape_' + _pass, (), _ns))
+    MORE_PASS_SHAPE_CASES.append(('sqlparse.engine.grouping.' + _pass, 'shape: ' + _what))
